@@ -4,6 +4,7 @@ import sys
 from ..terms import tt, show
 from ..runner import OK, DISCARD, FAIL
 from .. import gen
+from .. import impl
 from .. import history as H
 from .hist import HistoryProp
 from .c07 import gfact, CONSTS
@@ -249,12 +250,107 @@ class C04(HistoryProp):
                 break
         return out
 
+    # ------------------------------------------------------------------ deep suspended searches in several engines
+    def decide_deep(self, case):
+        """every engine enumerates mem(X, [1..n]) (the search for the k-th answer is k levels deep and stays suspended
+        at that depth); the engines are advanced in the generated interleaving.  Projection oracle: each engine gives
+        exactly the observations it gives when it runs alone."""
+        from ..terms import mklist
+        prog = [(('f', 'mem', (('v', 'X'), ('f', '.', (('v', 'X'), ('v', '_1'))))), ('true',)),
+                (('f', 'mem', (('v', 'X'), ('f', '.', (('v', '_2'), ('v', 'T'))))), ('call', ('f', 'mem', (('v', 'X'), ('v', 'T')))))]
+        sizes = case['deep_sizes']
+        per_engine = {}
+        for i, n in enumerate(sizes):
+            e = 'e%d' % i
+            per_engine[e] = [['engine', e], ['load', e, prog, True, 'ok'],
+                             ['open', e, i + 1, ('f', 'mem', (('v', 'Q0'), mklist([('i', j) for j in range(n)])))]]
+        order = []
+        left = {e: n + 1 for e, n in zip(per_engine, sizes)}
+        sched = list(case['schedule'])
+        si = 0
+        while any(left.values()):
+            e = 'e%d' % (sched[si % len(sched)] % len(sizes))
+            si += 1
+            if left[e]:
+                order.append(e)
+                left[e] -= 1
+
+        code = impl.compile_text(gen.program_text(prog))
+
+        def run(engines, order):
+            impl.WORK['limit'] = None
+            eng = {}
+            obs = {e: [] for e in engines}
+            try:
+                for e in engines:
+                    yp = impl.BudgetYP(10 ** 8)
+                    impl.WORK['limit'] = None
+                    yp.load_script_from_string(code)
+                    x = yp.variable()
+                    n = sizes[int(e[1:])]
+                    eng[e] = [yp.query('mem', [x, yp.makelist(list(range(n)))]), x, False]
+                for e in order:
+                    if e in obs and not eng[e][2]:
+                        try:
+                            next(eng[e][0])
+                            obs[e].append(impl.flat([eng[e][1]]))          # the value of X only (iterative read-out)
+                        except StopIteration:
+                            obs[e].append('stop')
+                            eng[e][2] = True
+                        except RecursionError:
+                            obs[e].append('RecursionError')
+                            eng[e][2] = True
+                        except Exception as ex:      # noqa
+                            obs[e].append('exception %s: %s' % (type(ex).__name__, str(ex)[:120]))
+                            eng[e][2] = True
+            finally:
+                for g, _, _ in eng.values():
+                    try:
+                        g.close()
+                    except Exception:      # noqa
+                        pass
+            return obs
+        together = run(list(per_engine), order)
+        for e in per_engine:
+            alone = run([e], order)[e]
+            if together[e] != alone:
+                k = next(i for i, (a, b) in enumerate(zip(together[e] + ['<nothing>'], alone + ['<nothing>'])) if a != b)
+                return FAIL('deep-suspended:observations-differ-from-solo-run',
+                            {'engine': e, 'list_lengths': sizes, 'first_difference_at_step': k,
+                             'interleaved': str(together[e][k]) if k < len(together[e]) else '<nothing>',
+                             'alone': str(alone[k]) if k < len(alone) else '<nothing>'})
+        return OK(True, ['deep-suspended-searches', 'deep-suspended:total-depth-%d+' % (sum(sizes) // 100 * 100)])
+
+    def decide(self, case):
+        if 'deep_sizes' in case:
+            return self.decide_deep(case)
+        return super().decide(case)
+
+    def deep_checks(self, tier, seed):
+        from ..gen import Src
+        import hashlib
+        out = []
+        for r in range(4 if tier == 'quick' else 40):
+            src = Src(hashlib.sha256(('%d/%d/deep' % (seed, r)).encode()).digest() * 4)
+            ne = 2 + src.n(2)
+            sizes = [src.pick([60, 120, 200, 280, 330]) for _ in range(ne)]
+            if r == 0:
+                sizes = [330, 330]              # always: two searches that are each near the depth one engine can reach alone
+            elif r == 1:
+                sizes = [230, 230, 230]
+            case = {'deep_sizes': sizes, 'schedule': [src.n(6) for _ in range(12)], 'ops': []}
+            o = self.decide(case)
+            out.append((case, o))
+            if o.status == 'fail':
+                break
+        return out
+
     # ------------------------------------------------------------------ threads (secondary, sampled)
     def extra_checks(self, tier, seed):
         from ..gen import Src
         import hashlib
         runs = 12 if tier == 'quick' else 200
-        out = self.lockstep_checks(tier, seed)
+        out = self.lockstep_checks(tier, seed) + self.deep_checks(tier, seed)
         for r in range(runs):
             data = hashlib.sha256(('%d/%d/threads' % (seed, r)).encode()).digest() * 20
             src = Src(data)
